@@ -18,6 +18,7 @@ import (
 	"math/rand"
 	"strconv"
 	"strings"
+	"time"
 
 	"verifharness/vh"
 )
@@ -25,9 +26,12 @@ import (
 // ---- configurations ----
 
 type spec struct {
-	kind string // q async mux mq sync pri
-	caps []int
+	kind  string // q async mux mq sync pri
+	caps  []int
+	noOpt []bool // q / mq: the size option of that position is NOT given to the constructor (its capacity is then 0)
 }
+
+func (s spec) no(i int) bool { return i < len(s.noOpt) && s.noOpt[i] }
 
 var kindName = map[string]string{"q": "pipe/q.Q", "async": "pipe/async.Q", "mux": "pipe/mux.Q", "mq": "pipe/mq.MQ", "sync": "syncq.SyncQueue", "pri": "priq.PriQueue"}
 var kindOrder = []string{"q", "async", "mux", "mq", "sync", "pri"}
@@ -35,9 +39,9 @@ var kindOrder = []string{"q", "async", "mux", "mq", "sync", "pri"}
 func (s spec) build() queue {
 	switch s.kind {
 	case "q", "async", "mux":
-		return newPipe(s.kind, s.caps[0])
+		return newPipe(s.kind, s.caps[0], s.no(0))
 	case "mq":
-		return newMQ(s.caps[0], s.caps[1])
+		return newMQ(s.caps[0], s.caps[1], s.no(0), s.no(1))
 	case "sync":
 		return newSync()
 	case "pri":
@@ -206,6 +210,9 @@ func runCase(e *vh.Env, sp spec, ops []op, gen string) {
 			qu.release()
 			break
 		}
+		if r.tag == "other" { // a panic / foreign value / ErrSync: the state of the queue is unknown from here on
+			break
+		}
 	}
 	caps := sp.caps
 	if caps == nil {
@@ -325,6 +332,16 @@ func genRandom(r *rand.Rand, kind string, maxLen int) []op {
 	if r.Intn(12) == 0 {
 		pris = []int64{-9223372036854775808 + 1, 0, 9223372036854775807 - 1}
 	}
+	// boundary values of the interface{} item type (nil, typed nil, "", 0, struct{}{}) in a quarter of the histories
+	var specials []int64
+	if r.Intn(4) == 0 {
+		switch kind {
+		case "q", "async", "mux", "mq":
+			specials = []int64{-1, -1, -2, -3, -4, -5}
+		case "sync":
+			specials = []int64{-2, -3, -4, -5}
+		}
+	}
 	id := int64(0)
 	ops := make([]op, 0, n)
 	for i := 0; i < n; i++ {
@@ -343,6 +360,9 @@ func genRandom(r *rand.Rand, kind string, maxLen int) []op {
 			o.x = id
 			if kind == "pri" {
 				o.pri = pris[r.Intn(len(pris))]
+			}
+			if specials != nil && r.Intn(3) == 0 {
+				o.x = specials[r.Intn(len(specials))]
 			}
 		}
 		ops = append(ops, o)
@@ -477,6 +497,7 @@ func corpus() []string {
 		"mq;1,1;ar1 tc", "mq;1,1;ar1 c tl", "mq;1,1;ac1 pc2", "mq;1,1;ac1 ar2 c y y y", "mq;0,0;ar1 ac2 o o",
 		"mq;1,0;ar1 ac2 ac3 pc4 tc tl o c o tl y y y tc il tl il ic", "mq;2,1;tl tc tl ac1 ar2 il ic", "mq;1,1;wc1 wc2 wr3 wr4 y y c wc5 wr6",
 		"mq;0,2;pr1 pr2 ar3 ar4 pr5 y y y y y", "mq;-1,-1;ac1 ac2 ar3 ar4 o o o o",
+		"mq;1,1;ac-1 ac2 ar-1 pr-2 o o o c pc-1 y", "mq;0,0;ar-1 ac-1 ar-3 ac-4 y y y y", "sync;;u-2 u-3 u-4 u-5 l o t o t c t",
 		"sync;;c u1 l t o", "sync;;u1 c t t", "sync;;u1 u2 l c u3 l o t t o", "sync;;t l u1 t t",
 		"pri;2;u0:1 u0:2 o", "pri;0;u0:1 o l", "pri;-1;u0:1 o", "pri;8;u7:1 u7:2 u7:3 u7:4 o u7:5 o o o",
 		"pri;3;u1:1 u5:2 u5:3 u9:4 l o o o o", "pri;5;u0:1 u1:2 u0:3 u1:4 u2:5 u9:6 o o o o o o",
@@ -487,6 +508,14 @@ func corpus() []string {
 
 func main() {
 	vh.Main("c12", func(e *vh.Env) {
+		if strings.HasPrefix(e.Replay, "group#") {
+			specs, evs, err := parseGroupReplay(e.Replay)
+			if err != nil {
+				panic(err)
+			}
+			runGroup(e, specs, evs, "replay")
+			return
+		}
 		if e.Replay != "" {
 			sp, ops, err := parseReplay(e.Replay)
 			if err != nil {
@@ -505,6 +534,13 @@ func main() {
 			}
 		}
 		big := e.Thorough || e.Search
+		secs := map[string]interface{}{}
+		e.Meta["seconds_per_class"] = secs
+		t0 := time.Now()
+		lap := func(name string) {
+			secs[name] = float64(int(time.Since(t0).Seconds()*10)) / 10
+			t0 = time.Now()
+		}
 
 		// (0) the fixed corpus
 		nc := 0
@@ -540,18 +576,18 @@ func main() {
 			n := 0
 			switch k {
 			case "q", "async", "mux":
-				n += enumerate(e, spec{k, []int{1}}, pipeAlpha, depth(4, 6))
-				n += enumerate(e, spec{k, []int{2}}, pipeAlpha, depth(4, 5))
-				n += enumerate(e, spec{k, []int{0}}, pipeAlpha, depth(3, 4))
+				n += enumerate(e, spec{kind: k, caps: []int{1}}, pipeAlpha, depth(4, 6))
+				n += enumerate(e, spec{kind: k, caps: []int{2}}, pipeAlpha, depth(4, 5))
+				n += enumerate(e, spec{kind: k, caps: []int{0}}, pipeAlpha, depth(3, 4))
 			case "mq":
-				n += enumerate(e, spec{k, []int{1, 1}}, mqAlpha, depth(3, 4))
-				n += enumerate(e, spec{k, []int{0, 2}}, mqAlpha, depth(3, 4))
+				n += enumerate(e, spec{kind: k, caps: []int{1, 1}}, mqAlpha, depth(3, 4))
+				n += enumerate(e, spec{kind: k, caps: []int{0, 2}}, mqAlpha, depth(3, 4))
 			case "sync":
-				n += enumerate(e, spec{k, nil}, syncAlpha, depth(4, 6))
+				n += enumerate(e, spec{kind: k, caps: nil}, syncAlpha, depth(4, 6))
 			case "pri":
-				n += enumerate(e, spec{k, []int{2}}, priAlpha, depth(5, 7))
-				n += enumerate(e, spec{k, []int{3}}, priAlpha, depth(4, 6))
-				n += enumerate(e, spec{k, []int{0}}, priAlpha, depth(2, 3))
+				n += enumerate(e, spec{kind: k, caps: []int{2}}, priAlpha, depth(5, 7))
+				n += enumerate(e, spec{kind: k, caps: []int{3}}, priAlpha, depth(4, 6))
+				n += enumerate(e, spec{kind: k, caps: []int{0}}, priAlpha, depth(2, 3))
 			}
 			exh[kindName[k]] = n
 		}
@@ -573,7 +609,7 @@ func main() {
 				n = per * 4
 			}
 			for i := 0; i < n && hangs[k] < 3; i++ {
-				sp := spec{k, pickCaps(e.Rnd, k)}
+				sp := spec{kind: k, caps: pickCaps(e.Rnd, k)}
 				runCase(e, sp, genRandom(e.Rnd, k, maxLen), "random")
 			}
 			rnd[kindName[k]] = n
@@ -585,11 +621,50 @@ func main() {
 		if focus == "" || focus == "pri" {
 			ns := e.Scale(700, 8000)
 			for i := 0; i < ns; i++ {
-				runCase(e, spec{"pri", []int{[]int{24, 32, 64}[e.Rnd.Intn(3)]}}, genPriStream(e.Rnd), "priority-stream")
+				runCase(e, spec{kind: "pri", caps: []int{[]int{24, 32, 64}[e.Rnd.Intn(3)]}}, genPriStream(e.Rnd), "priority-stream")
 			}
 			e.Meta["priority_streams"] = ns
 		}
 
+		lap("sequential")
+		// (5) constructor histories: several queues built in sequence with different option sets, used interleaved
+		ng := 0
+		for _, arg := range groupCorpus() {
+			specs, evs, err := parseGroupReplay(arg)
+			if err != nil {
+				panic(err)
+			}
+			if focus == "" || (focus == "mq") == (specs[0].kind == "mq") {
+				runGroup(e, specs, evs, "corpus")
+				ng++
+			}
+		}
+		for _, mqGroup := range []bool{false, true} {
+			if focus != "" && (focus == "mq") != mqGroup {
+				continue
+			}
+			if focus == "sync" || focus == "pri" {
+				continue
+			}
+			for i := e.Scale(400, 5000); i > 0 && hangs["group"] < 2; i-- {
+				specs, evs := genGroup(e.Rnd, mqGroup)
+				runGroup(e, specs, evs, "constructor-history")
+				ng++
+			}
+		}
+		e.Meta["constructor_histories"] = ng
+
+		lap("constructor_histories")
+		// (6) PriQueue under parallel pushers and poppers
+		if focus == "" || focus == "pri" {
+			sample := 40
+			if big {
+				sample = 300
+			}
+			e.Meta["parallel_priq"] = parPri(e.Rnd, e, e.Scale(2500, 25000), sample).String()
+		}
+
+		lap("parallel_priq")
 		// (4) concurrent rounds: add versus close
 		raceOnly := e.Search && strings.HasPrefix(e.Focus, "race ")
 		rs := map[string]interface{}{}
@@ -610,6 +685,7 @@ func main() {
 			rs[kindName[v.kind]] = raceClass(e.Rnd, e, v, rounds, emitCap).String()
 		}
 		e.Meta["race_add_vs_close"] = rs
+		lap("race_add_vs_close")
 		nh := 0
 		for _, v := range hangs {
 			nh += v
